@@ -36,15 +36,18 @@ MANIFEST = {
 RULE = ("histories of 1-3 runs on one Spinner over one virtual reactor; each run: function shape (return/raise, "
         "already-fired Deferred, Deferred firing/failing at t in {<,=,>} timeout, never) x 0-3 extra delayed calls x "
         "0-2 selectables x stop request (none / synchronous / at an instant <,=,> the others) x re-entrant call x "
-        "handler installed by the function x pre-installed handlers x clear_junk or not x tie-break oracle; "
+        "(through the same or another Spinner on the same reactor) x handler installed by the function x "
+        "pre-installed handlers x clear_junk or not x tie-break oracle x reactor running one call or one instant "
+        "per iteration; "
         "non-trivial = an asynchronous shape with a competing stop request or tie, or a history of >= 2 runs; "
         "distinct = distinct JSON")
 TRUSTED = ["PARTIAL: the reactor, Twisted's Deferred and real signal delivery are modelled, not verified "
            "(harness/vcheck/vreactor.py is a deterministic stand-in for the reactor with the documented interface; "
            "it is validated against the real reactor only by the extra_checks sample)",
            "signal.signal/getsignal of CPython are used as they are"]
-ASSUMPTIONS = ["one delayed call runs at a time and crash() takes effect immediately (vreactor); simultaneous "
-               "calls are ordered by an explicit oracle, over which the theorems quantify",
+ASSUMPTIONS = ["the reactor runs either one delayed call per iteration (crash() takes effect immediately) or, like "
+               "the real reactor, every call due at the same instant in one iteration; simultaneous calls are "
+               "ordered by an explicit oracle; the theorems quantify over both modes and all oracles",
                "the function's leftovers do nothing when they run; Deferreds fire only from reactor callbacks"]
 EXPLANATION = ("Theorems in coq/Props/C15.v over all histories; correspondence: the real Spinner over "
                "vcheck.vreactor.VReactor against coq/Model/Spinner.v on generated histories, plus a sample on the real "
@@ -91,7 +94,7 @@ def drive(case):
     saved = [signal.getsignal(s) for s in sigs]
     excs = [type("UserExc%d" % k, (Exception,), {}) for k in range(N_USER_EXC)]
     try:
-        reactor = VReactor(case["oracle"])
+        reactor = VReactor(case["oracle"], batch=case.get("batch", False))
         orig_stop = reactor.stop
         spinner = _spinner.Spinner(reactor)
         out = []
@@ -104,6 +107,7 @@ def drive(case):
                 signal.signal(s, _handlers()[h])
             ran = []
             reentry = [None]
+            order_from = len(reactor.order)
 
             def mark(obj, tok):
                 toks[id(obj)] = tok
@@ -121,15 +125,23 @@ def drive(case):
                 if run["setsig"] is not None:
                     signal.signal(sigs[run["setsig"][0]], _handlers()[run["setsig"][1]])
                 if run["reenter"]:
-                    before = (len(reactor.getDelayedCalls()), len(reactor.getReaders()), list(spinner.get_junk()),
-                              [signal.getsignal(s) for s in sigs], reactor.running, reactor.stop)
+                    # through the same Spinner, or through ANOTHER Spinner on the same reactor
+                    inner = _spinner.Spinner(reactor) if run.get("other") else spinner
+                    nested_ran = []
+
+                    def snap():
+                        return (len(reactor.getDelayedCalls()), len(reactor.getReaders()), list(spinner.get_junk()),
+                                list(inner.get_junk()), [signal.getsignal(s) for s in sigs], reactor.running,
+                                reactor.stop)
+                    before = snap()
                     try:
-                        spinner.run(5, lambda: 7)
+                        inner.run(5, lambda: nested_ran.append(1) or 7)
                         reentry[0] = False
                     except _spinner.ReentryError:
-                        after = (len(reactor.getDelayedCalls()), len(reactor.getReaders()), list(spinner.get_junk()),
-                                 [signal.getsignal(s) for s in sigs], reactor.running, reactor.stop)
-                        reentry[0] = before == after
+                        # refused: its function did not run, nothing was scheduled, saved or changed
+                        reentry[0] = before == snap() and not nested_ran
+                    except BaseException:
+                        reentry[0] = False
                 if run["stop_now"]:
                     reactor.stop()
                 sh = run["shape"]
@@ -170,6 +182,7 @@ def drive(case):
             except Exception as e:
                 res = ["raised", excs.index(type(e))] if type(e) in excs else ["raised", "other"]
             o = {"res": res, "reentry": reentry[0], "ran": sorted(ran),
+                 "order": [toks.get(id(c), 0) for c in reactor.order[order_from:]],
                  "junk": sorted(toks.get(id(x), 0) for x in spinner.get_junk()),
                  "running": bool(reactor.running), "pending": len(reactor.getDelayedCalls()),
                  "readers": len(reactor.getReaders()),
@@ -200,8 +213,8 @@ def t_run(r):
         t_shape(r["shape"]), q.lst([q.nat(d) for d in r["extras"]]), q.nat(r["sels"]),
         q.option(r["stop"], q.nat), q.boolean(r["stop_now"]), q.boolean(r["reenter"]),
         q.option(r["setsig"], lambda p: q.pair("(nth %d reactor_signals 0)" % p[0], q.nat(p[1]))))
-    return "(mkRun %s %s %s %s)" % (q.boolean(r["clear"]), q.lst([q.nat(h) for h in r["pre"]]),
-                                   q.nat(r["timeout"]), fn)
+    return "(mkRun %s %s %s %s %s)" % (q.boolean(r.get("other", False)), q.boolean(r["clear"]),
+                                      q.lst([q.nat(h) for h in r["pre"]]), q.nat(r["timeout"]), fn)
 
 
 EXC = {"timeout": "ETimeout", "noresult": "ENoResult", "reentry": "EReentry", "stalejunk": "EStaleJunk",
@@ -217,14 +230,15 @@ def t_res(res):
 
 
 def t_obs(o):
-    return "(mkObs %s %s %s %s %s %s %s %s %s)" % (
+    return "(mkObs %s %s %s %s %s %s %s %s %s %s)" % (
         t_res(o["res"]), q.option(o["reentry"], q.boolean), q.lst([q.nat(x) for x in o["ran"]]),
-        q.lst([q.nat(x) for x in o["junk"]]), q.boolean(o["running"]), q.nat(o["pending"]), q.nat(o["readers"]),
+        q.lst([q.nat(x) for x in o["order"]]), q.lst([q.nat(x) for x in o["junk"]]), q.boolean(o["running"]), q.nat(o["pending"]), q.nat(o["readers"]),
         q.boolean(o["stop_ok"]), q.lst([q.nat(x) for x in o["sigs"]]))
 
 
 def term(case, obs):
-    i = "(mkInput %s %s)" % (q.lst([q.nat(k) for k in case["oracle"]]), q.lst([t_run(r) for r in case["runs"]]))
+    i = "(mkInput %s %s %s)" % (q.lst([q.nat(k) for k in case["oracle"]]), q.boolean(case.get("batch", False)),
+                                q.lst([t_run(r) for r in case["runs"]]))
     return q.pair(i, q.lst([t_obs(o) for o in obs]))
 
 
@@ -239,9 +253,10 @@ T = 5      # the timeout used by most cases
 
 
 def mkrun(shape, extras=(), sels=0, stop=None, stop_now=False, reenter=False, setsig=None, pre=(0, 0, 0),
-          clear=True, timeout=T):
+          clear=True, timeout=T, other=False):
     return {"clear": clear, "pre": list(pre), "timeout": timeout, "shape": list(shape), "extras": list(extras),
-            "sels": sels, "stop": stop, "stop_now": stop_now, "reenter": reenter, "setsig": setsig}
+            "sels": sels, "stop": stop, "stop_now": stop_now, "reenter": reenter, "setsig": setsig,
+            "other": bool(other)}
 
 
 def shapes():
@@ -265,9 +280,9 @@ def rand_run(rng, simple=False):
     pre = [rng.choice([0, 1, 2, 3, 4]) for _ in range(3)] if rng.random() < 0.6 else [0, 0, 0]
     if simple:
         return mkrun(sh, extras, rng.choice([0, 0, 1]), stop, False, False, None, pre, True, timeout)
-    return mkrun(sh, extras, rng.choice([0, 0, 0, 1, 2]), stop, rng.random() < 0.1, rng.random() < 0.15,
+    return mkrun(sh, extras, rng.choice([0, 0, 0, 1, 2]), stop, rng.random() < 0.1, rng.random() < 0.2,
                  [rng.randrange(3), 8] if rng.random() < 0.15 else None, pre,
-                 rng.random() < 0.75, timeout)
+                 rng.random() < 0.75, timeout, other=rng.random() < 0.5)
 
 
 def generate(rng, tier):
@@ -286,26 +301,41 @@ def generate(rng, tier):
         [mkrun(ok, reenter=True, setsig=[0, 8], pre=(3, 1, 4))],
         [mkrun(["later", 2, "ok", 1], stop_now=True)],
     ]
+    fixed += [
+        # a nested run through another Spinner on the same reactor is refused as well
+        [mkrun(ok, reenter=True, other=True)],
+        [mkrun(["later", 2, "ok", 5], reenter=True, other=True, extras=[1]), mkrun(ok)],
+        [mkrun(never, reenter=True, other=True), mkrun(ok, clear=False)],
+    ]
     for runs in fixed:
-        cases.append({"oracle": [], "runs": runs})
-    cases.append({"oracle": [1], "runs": fixed[6]})
-    cases.append({"oracle": [2, 1, 0], "runs": fixed[7]})
+        cases.append({"oracle": [], "batch": False, "runs": runs})
+    cases.append({"oracle": [1], "batch": False, "runs": fixed[6]})
+    cases.append({"oracle": [2, 1, 0], "batch": False, "runs": fixed[7]})
+    # the Deferred fires after the timeout call has run, at the same instant, in the same reactor iteration
+    for orc in ([], [1], [0, 1], [2, 1], [1, 1], [2, 0]):
+        for kind, x in (("ok", 6), ("err", 2)):
+            cases.append({"oracle": orc, "batch": True, "runs": [mkrun(["later", T, kind, x]), mkrun(ok)]})
+            cases.append({"oracle": orc, "batch": True,
+                          "runs": [mkrun(["later", T, kind, x], stop=T, extras=[T]), mkrun(never, stop=2)]})
     # bounded-exhaustive core: single runs, shape x stop x one extra x oracle
     stops = [None, 0, T - 2, T, T + 2]
     for sh, stop, extra, orc in itertools.product(shapes(), stops, [None, 0, T, T + 4], [[], [1], [2, 1]]):
         if orc and not (stop == T or (sh[0] == "later" and sh[1] in (T, stop)) or extra == T):
             continue
-        cases.append({"oracle": orc, "runs": [mkrun(sh, [] if extra is None else [extra], 0, stop)]})
+        cases.append({"oracle": orc, "batch": False, "runs": [mkrun(sh, [] if extra is None else [extra], 0, stop)]})
+        if stop == T or (sh[0] == "later" and sh[1] in (T, stop)) or extra == T:
+            cases.append({"oracle": orc, "batch": True,
+                          "runs": [mkrun(sh, [] if extra is None else [extra], 0, stop)]})
     # all pairs of shapes on one spinner (with and without a stop in the second run)
     for a, b in itertools.product(shapes(), repeat=2):
         for stop in (None, 1):
-            cases.append({"oracle": [], "runs": [mkrun(a), mkrun(b, stop=stop)]})
+            cases.append({"oracle": [], "batch": False, "runs": [mkrun(a), mkrun(b, stop=stop)]})
     n_rand = 2500 if tier == "quick" else 45000
     for _ in range(n_rand):
         n = rng.choice([1, 2, 2, 3, 3])
         runs = [rand_run(rng, simple=rng.random() < 0.3) for _ in range(n)]
         orc = [rng.randrange(4) for _ in range(rng.choice([0, 0, 1, 2, 4]))]
-        cases.append({"oracle": orc, "runs": runs})
+        cases.append({"oracle": orc, "batch": rng.random() < 0.4, "runs": runs})
     return cases
 
 
@@ -318,17 +348,20 @@ def nontrivial(case):
 
 def shrink(case):
     runs = case["runs"]
+    b = case.get("batch", False)
     if case["oracle"]:
-        yield {"oracle": case["oracle"][:-1], "runs": runs}
-        yield {"oracle": [], "runs": runs}
+        yield {"oracle": case["oracle"][:-1], "batch": b, "runs": runs}
+        yield {"oracle": [], "batch": b, "runs": runs}
+    if b:
+        yield {"oracle": case["oracle"], "batch": False, "runs": runs}
     for k in range(len(runs)):
         if len(runs) > 1:
-            yield {"oracle": case["oracle"], "runs": runs[:k] + runs[k + 1:]}
+            yield {"oracle": case["oracle"], "batch": b, "runs": runs[:k] + runs[k + 1:]}
     for k, r in enumerate(runs):
         def rep(**kw):
             r2 = dict(r)
             r2.update(kw)
-            return {"oracle": case["oracle"], "runs": runs[:k] + [r2] + runs[k + 1:]}
+            return {"oracle": case["oracle"], "batch": b, "runs": runs[:k] + [r2] + runs[k + 1:]}
         for j in range(len(r["extras"])):
             yield rep(extras=r["extras"][:j] + r["extras"][j + 1:])
         if r["sels"]:
@@ -339,6 +372,8 @@ def shrink(case):
             yield rep(stop_now=False)
         if r["reenter"]:
             yield rep(reenter=False)
+        if r.get("other"):
+            yield rep(other=False)
         if r["setsig"] is not None:
             yield rep(setsig=None)
         if r["pre"] != [0, 0, 0]:
@@ -354,6 +389,8 @@ def shrink(case):
 
 def distribution(cases):
     d = {"runs_per_history": {}, "shape": {}, "with_stop_request": 0, "with_tie_at_timeout": 0, "with_oracle": 0,
+         "batch_reactor": sum(1 for c in cases if c.get("batch")),
+         "reentrant_through_other_spinner": sum(1 for c in cases for r in c["runs"] if r["reenter"] and r.get("other")),
          "with_extras": 0, "with_selectables": 0, "reentrant": 0, "stale_junk_not_cleared": 0,
          "nondefault_handlers": 0}
     for c in cases:
